@@ -577,7 +577,7 @@ pub fn run(tier: Tier) -> i32 {
     bounds.insert("field_deviations".into(), json!({"baselines": bases.len(), "max_deviating_fields": max_dev, "menu": NUMS.len() + specials.len(), "lines": nlines}));
 
     // (3) path strings: all token strings up to a length, two slider heads
-    let max_tokens = tier.pick(5usize, 6usize);
+    let max_tokens = tier.pick(6usize, 7usize);
     let mut per = Vec::new();
     for n in 1..=max_tokens {
         let radices = vec![PATH_TOKENS.len() as u64; n];
@@ -589,7 +589,7 @@ pub fn run(tier: Tier) -> i32 {
             acc.states += 1;
             let line = format!("100,200,1000,2,0,{},1,100", toks.join("|"));
             check_line(&line, &[0, 1], &modes[..1], acc);
-            if n <= 4 {
+            if n <= 5 {
                 // head elsewhere: relative offsets negative, fractional head
                 let line = format!("150.7,250.2,1000,6,0,{},2", toks.join("|"));
                 check_line(&line, &[2], &modes[1..], acc);
@@ -622,7 +622,7 @@ pub fn run(tier: Tier) -> i32 {
                reference parser of the legacy grammar on accept/reject and on every field of the raw object (position truncation, \
                kind precedence, combo flag/offset, forced new combo, repeat count, node count, requested length, durations, control \
                points with types, samples). (1) 256 type bytes x 256 sound bytes; (2) baselines with <= 2/3 deviating fields from a \
-               33-value menu and all truncations; (3) all path token strings of <= 5/6 tokens over 14 tokens; (4) node lists x repeat \
+               33-value menu and all truncations; (3) all path token strings of <= 6/7 tokens over 14 tokens; (4) node lists x repeat \
                counts. states = lines, evaluations = (line, context, mode) runs; distinct_nontrivial = distinct accepted objects"
             .into(),
         bounds: Value::Object(bounds),
